@@ -578,6 +578,7 @@ func rulesC06(c *Ctx) {
 	c.Check(usesFirst && usesCont, "C06.bare", "IdentNeedsQuotes: uses the lexer's predicates", inq.Pos(), "the decision must use isIdentFirstChar for the first rune and isIdentChar for the rest")
 	identEntryRule(c, "C06.bare")
 	everyCharRule(c, "C06.everychar", "IdentNeedsQuotes")
+	quotedIdentTokensRule(c, "C06.quotedident")
 }
 
 func derivesFromParam(v ssa.Value, f *ssa.Function, depth int) bool {
